@@ -173,6 +173,12 @@ def run(tier):
         margins[res["name"]] = dict(declared=res["p"], stages=res["stages"], attained=res.get("attained"))
     R.extra_cov["conditions_checked"] = total_conditions
     R.extra_cov["classes"] = margins
+    # ---- error estimators (E1): the real get_error_estimate (incl. the RadauIIA19 override) executed on symbolic stage values; the weights
+    #      it applies must be those the imported object shows when probed natively, and they must be a difference of consistent weightings
+    try:
+        estimator_obligations(R, reg, d)
+    except Unsupported as e:
+        reg.undecided(PID + "/get_error_estimate/unsupported", "unsupported", "executor", str(e))
     # ---- Richardson wrappers (E1)
     try:
         src = source.load_all()
@@ -226,6 +232,55 @@ def run(tier):
     R.extra_cov["known_finding_obligations"] = [o.to_json() for o in known_refuted]
     R.samples.append(dict(obligation="C01/<class>/order-conditions#k", meaning="for every rooted tree t with k vertices: |sum_i b_i Phi_i(t) - 1/gamma(t)| <= k*2^-50*(Phi(|A|,|b|)(t) + 1/gamma(t)), exact rational arithmetic"))
     return R.finish()
+
+
+def estimator_obligations(R, reg, d):
+    from pyvc.executor import Executor, State, Ctx, Raised
+    from pyvc.values import LinComb, TabVal
+    from . import ctor
+    FT = "desolver/integrators/integrator_types.py"
+    FI = "desolver/integrators/implicit_integration_schemes.py"
+    for name in d["explicit"] + d["implicit"]:
+        m = d["methods"][name]
+        if m["kind"] != "rk" or not m["derived"]["adaptive"]:
+            continue
+        src = source.load_all()
+        override = "get_error_estimate" in (m.get("overrides") or [])
+        if override:
+            src.load(FI)                      # the class that overrides the estimator is read from its real source (tables stay data)
+        Tf = TabVal(O.frac_table(m["tableau_final"]))
+        T = TabVal(O.frac_table(m["tableau_intermediate"]))
+        ctor._install_class(src, name, "RungeKuttaIntegrator", dict(tableau_intermediate=T, tableau_final=Tf))
+        fi = src.find_method(name, "get_error_estimate")
+        R.under_contract(fi)
+        n = len(T.rows)
+        ex = Executor(src, reg, prop=PID)
+        st = State()
+        stages = st.new_obj("stages", "stages", items=[LinComb.sym("k%d" % i) for i in range(n)])
+        selfobj = st.new_obj(name, fields=dict(tableau_final=Tf, tableau_intermediate=T, stage_values=stages, _adaptive=True, _adaptivity_enabled=False, dState=LinComb.sym("dState")))
+        ctx = Ctx(fi, None, fi.cls, tag="%s.get_error_estimate" % name)
+        paths = ex.call_function(fi, [selfobj], {}, st, ctx)
+        pre = "%s/%s/" % (PID, name)
+        if len(paths) != 1 or isinstance(paths[0][1], Raised) or not isinstance(paths[0][1], LinComb):
+            reg.undecided(pre + "estimator[E1]/single-linear-result", "unsupported", fi.qualname, "paths=%d result=%r" % (len(paths), paths[0][1] if paths else None))
+            continue
+        res = paths[0][1]
+        coef = {a.key[1]: c for a, c in res.terms.items() if a.key[0] == "sym"}
+        linear = len(coef) == len(res.terms) and all(c.is_const() for c in coef.values()) and set(coef) <= {"k%d" % i for i in range(n)}
+        w = [Fraction(coef["k%d" % i].const_value()) if ("k%d" % i) in coef else Fraction(0) for i in range(n)] if linear else None
+        reg.ground(pre + "estimator[E1]/linear-in-the-stages-of-this-step", "post", fi.qualname, linear, backend="lincomb-exact",
+                   detail="get_error_estimate() == sum_i d_i k_i over the current stage values only (%s)" % ("override in " + FI if override else "RungeKuttaIntegrator"))
+        if not linear:
+            continue
+        probed = [Fraction(float.fromhex(x)) for x in m["estimator_weights"]]
+        sl = [4 * O.ULP_SLACK * (abs(a) + abs(b) + abs(Fraction(Tf.rows[0][1 + i])) + abs(Fraction(Tf.rows[1][1 + i]))) for i, (a, b) in enumerate(zip(w, probed))]
+        bad = [(i, float(a - b)) for i, (a, b) in enumerate(zip(w, probed)) if abs(a - b) > sl[i]]
+        reg.ground(pre + "estimator[E1]/weights-agree-with-the-imported-object", "lemma", fi.qualname, len(w) == len(probed) and not bad, backend="symbolic-exec-vs-cpython",
+                   detail="weights extracted from the source text vs weights probed on the object CPython built (rounding slack): differing %r" % (bad[:3],))
+        sd = sum(w)
+        slack = n * O.ULP_SLACK * (sum(abs(x) for x in w) + 1)
+        reg.ground(pre + "estimator[E1]/difference-of-consistent-weightings", "class-invariant", fi.qualname, abs(sd) <= slack and any(x != 0 for x in w), backend="exact-rational",
+                   detail="sum_i d_i = %.3g (slack %.3g), not all zero: the estimate vanishes on constant slopes and does measure something" % (float(sd), float(slack)))
 
 
 def rk_job_capped(args):
